@@ -80,7 +80,7 @@ THEOREMS = ['marshal_wellformed', 'serial_fresh', 'parse_marshal', 'parse_foreig
             'construct_general_eq', 'parse_general_eq', 'parse_general_of_ok', 'marshal_wellformed_general',
             'parse_marshal_general', 'parse_foreign_general', 'parse_foreign_containers',
             'remarshal_parse', 'forward_parse', 'remarshal_general_eq', 'forward_drops_field_outside_table',
-            'headerCode_outside_fragment', 'general_result_shape']
+            'headerCode_outside_fragment', 'general_result_shape', 'forward_foreign']
 TRUSTED_BASE = [
     'message body bytes: the model takes the bytes marshal.marshal produced as an input (opaque body codec; '
     'C01/C02 own the codec model), and the theorems take the codec round trip as a named hypothesis',
